@@ -60,14 +60,17 @@ func c02Shapes() []cargen.Shape {
 	e1.PrevSlot = &p // parent of the first block of epoch 1 is the last block of epoch 0
 	q := uint64(432_000 + 431_998)
 	e2.PrevSlot = &q
-	return []cargen.Shape{e0, e1, e2}
+	// epoch 0 again, with slot 1 skipped: the block at slot 2 has parent slot 0 (same epoch)
+	e0b := mk(0, []int{0, 2, 3, 431_999})
+	return []cargen.Shape{e0, e1, e2, e0b}
 }
 
 type c02World struct {
-	eps   []*vEpoch
-	multi *MultiEpoch
-	h     func(*fasthttp.RequestCtx)
-	dead  bool // a request got no answer: the rest of this configuration is skipped
+	eps    []*vEpoch
+	multi  *MultiEpoch
+	h      func(*fasthttp.RequestCtx)
+	dead   bool // a request got no answer: the rest of this configuration is skipped
+	txOnly bool // only the transaction requests (no getBlock / getBlockTime before them)
 }
 
 func c02Decode(enc string, v interface{}) ([]byte, error) {
@@ -185,139 +188,147 @@ func (w *c02World) checkAll(loaded []*vEpoch, reverse bool, encs []string, repor
 		t := br.e.Truth
 		b := &t.Blocks[br.i]
 		wantBT := b.Blocktime
-		// ---------- JSON-RPC getBlock ----------
-		for _, enc := range encs {
-			m, raw, f := w.rpc("getBlock", fmt.Sprintf(`[%d,{"encoding":%q,"maxSupportedTransactionVersion":0,"rewards":true}]`, b.Slot, enc))
-			count(len(b.Txs) > 1)
-			if f != nil {
-				report(*f)
-				if w.dead {
-					return
-				}
-				continue
+		func() {
+			if w.txOnly {
+				return // transactions-first passes: no block request warms the cache
 			}
-			res, _ := m["result"].(map[string]interface{})
-			if res == nil {
-				report(c02Finding{"getBlock-failed", fmt.Sprintf("getBlock(%d,%s) for an archived slot answered %s", b.Slot, enc, raw)})
-				continue
-			}
-			if ps, _ := res["parentSlot"].(float64); uint64(ps) != b.Parent && b.Slot != 0 {
-				report(c02Finding{"parent-slot", fmt.Sprintf("getBlock(%d): parentSlot %v, archived %d", b.Slot, res["parentSlot"], b.Parent)})
-			}
-			if b.Slot != 0 && b.Blocktime != 0 {
-				if bt, _ := res["blockTime"].(float64); int64(bt) != wantBT {
-					report(c02Finding{"block-time", fmt.Sprintf("getBlock(%d): blockTime %v, archived %d", b.Slot, res["blockTime"], wantBT)})
-				}
-			}
-			if b.HasHeight && b.Slot != 0 {
-				if bh, _ := res["blockHeight"].(float64); uint64(bh) != b.Height {
-					report(c02Finding{"block-height", fmt.Sprintf("getBlock(%d): blockHeight %v, archived %d", b.Slot, res["blockHeight"], b.Height)})
-				}
-			}
-			if bh, _ := res["blockhash"].(string); bh != base58.Encode(b.LastEntryHash) {
-				report(c02Finding{"blockhash", fmt.Sprintf("getBlock(%d): blockhash %s, archived last entry hash %s", b.Slot, bh, base58.Encode(b.LastEntryHash))})
-			}
-			if pb := slotHas(br.e, b.Parent); pb != nil && b.Slot != 0 && pb.NumEntries > 0 && b.Parent != b.Slot {
-				if ph, _ := res["previousBlockhash"].(string); ph != base58.Encode(pb.LastEntryHash) {
-					report(c02Finding{"previous-blockhash", fmt.Sprintf("getBlock(%d): previousBlockhash %v, parent %d (same epoch) has %s", b.Slot, res["previousBlockhash"], b.Parent, base58.Encode(pb.LastEntryHash))})
-				}
-			}
-			txs, _ := res["transactions"].([]interface{})
-			if len(txs) != len(b.Txs) {
-				report(c02Finding{"tx-count", fmt.Sprintf("getBlock(%d,%s): %d transactions, archived %d", b.Slot, enc, len(txs), len(b.Txs))})
-				continue
-			}
-			for k, ti := range b.Txs {
-				tx := &t.Txs[ti]
-				got, _ := txs[k].(map[string]interface{})
-				if f := w.checkTxJSON(tx, wantBT, enc, got, fmt.Sprintf("getBlock(%d)[%d]", b.Slot, k)); f != nil {
-					f.class = "block-" + f.class
+			// ---------- JSON-RPC getBlock ----------
+			for _, enc := range encs {
+				m, raw, f := w.rpc("getBlock", fmt.Sprintf(`[%d,{"encoding":%q,"maxSupportedTransactionVersion":0,"rewards":true}]`, b.Slot, enc))
+				count(len(b.Txs) > 1)
+				if f != nil {
 					report(*f)
 					if w.dead {
 						return
 					}
+					continue
+				}
+				res, _ := m["result"].(map[string]interface{})
+				if res == nil {
+					report(c02Finding{"getBlock-failed", fmt.Sprintf("getBlock(%d,%s) for an archived slot answered %s", b.Slot, enc, raw)})
+					continue
+				}
+				if ps, _ := res["parentSlot"].(float64); uint64(ps) != b.Parent && b.Slot != 0 {
+					report(c02Finding{"parent-slot", fmt.Sprintf("getBlock(%d): parentSlot %v, archived %d", b.Slot, res["parentSlot"], b.Parent)})
+				}
+				if b.Slot != 0 && b.Blocktime != 0 {
+					if bt, _ := res["blockTime"].(float64); int64(bt) != wantBT {
+						report(c02Finding{"block-time", fmt.Sprintf("getBlock(%d): blockTime %v, archived %d", b.Slot, res["blockTime"], wantBT)})
+					}
+				}
+				if b.HasHeight && b.Slot != 0 {
+					if bh, _ := res["blockHeight"].(float64); uint64(bh) != b.Height {
+						report(c02Finding{"block-height", fmt.Sprintf("getBlock(%d): blockHeight %v, archived %d", b.Slot, res["blockHeight"], b.Height)})
+					}
+				}
+				if bh, _ := res["blockhash"].(string); bh != base58.Encode(b.LastEntryHash) {
+					report(c02Finding{"blockhash", fmt.Sprintf("getBlock(%d): blockhash %s, archived last entry hash %s", b.Slot, bh, base58.Encode(b.LastEntryHash))})
+				}
+				if pb := slotHas(br.e, b.Parent); pb != nil && b.Slot != 0 && pb.NumEntries > 0 && b.Parent != b.Slot {
+					if ph, _ := res["previousBlockhash"].(string); ph != base58.Encode(pb.LastEntryHash) {
+						report(c02Finding{"previous-blockhash", fmt.Sprintf("getBlock(%d): previousBlockhash %v, parent %d (same epoch) has %s", b.Slot, res["previousBlockhash"], b.Parent, base58.Encode(pb.LastEntryHash))})
+					}
+				}
+				txs, _ := res["transactions"].([]interface{})
+				if len(txs) != len(b.Txs) {
+					report(c02Finding{"tx-count", fmt.Sprintf("getBlock(%d,%s): %d transactions, archived %d", b.Slot, enc, len(txs), len(b.Txs))})
+					continue
+				}
+				for k, ti := range b.Txs {
+					tx := &t.Txs[ti]
+					got, _ := txs[k].(map[string]interface{})
+					if f := w.checkTxJSON(tx, wantBT, enc, got, fmt.Sprintf("getBlock(%d)[%d]", b.Slot, k)); f != nil {
+						f.class = "block-" + f.class
+						report(*f)
+						if w.dead {
+							return
+						}
+					}
 				}
 			}
-		}
-		// ---------- JSON-RPC getBlockTime ----------
-		if b.Blocktime != 0 {
-			m, raw, f := w.rpc("getBlockTime", fmt.Sprintf(`[%d]`, b.Slot))
-			count(false)
-			if f != nil {
-				report(*f)
-				if w.dead {
+			// ---------- JSON-RPC getBlockTime ----------
+			if b.Blocktime != 0 {
+				m, raw, f := w.rpc("getBlockTime", fmt.Sprintf(`[%d]`, b.Slot))
+				count(false)
+				if f != nil {
+					report(*f)
+					if w.dead {
+						return
+					}
+				} else if bt, ok := m["result"].(float64); !ok || int64(bt) != wantBT {
+					report(c02Finding{"getBlockTime", fmt.Sprintf("getBlockTime(%d) answered %s, archived %d", b.Slot, raw, wantBT)})
+				}
+			}
+			// ---------- gRPC GetBlock (direct and through the Get stream) ----------
+			checkGrpcBlock := func(resp *old_faithful_grpc.BlockResponse, err error, via string) {
+				count(len(b.Txs) > 1)
+				if err != nil || resp == nil {
+					report(c02Finding{"grpc-GetBlock-failed", fmt.Sprintf("%s GetBlock(%d): %v", via, b.Slot, err)})
 					return
 				}
-			} else if bt, ok := m["result"].(float64); !ok || int64(bt) != wantBT {
-				report(c02Finding{"getBlockTime", fmt.Sprintf("getBlockTime(%d) answered %s, archived %d", b.Slot, raw, wantBT)})
-			}
-		}
-		// ---------- gRPC GetBlock (direct and through the Get stream) ----------
-		checkGrpcBlock := func(resp *old_faithful_grpc.BlockResponse, err error, via string) {
-			count(len(b.Txs) > 1)
-			if err != nil || resp == nil {
-				report(c02Finding{"grpc-GetBlock-failed", fmt.Sprintf("%s GetBlock(%d): %v", via, b.Slot, err)})
-				return
-			}
-			if resp.Slot != b.Slot || (b.Slot != 0 && resp.ParentSlot != b.Parent) {
-				report(c02Finding{"grpc-slot", fmt.Sprintf("%s GetBlock(%d): slot %d parent %d, archived parent %d", via, b.Slot, resp.Slot, resp.ParentSlot, b.Parent)})
-			}
-			if b.Slot != 0 && resp.BlockTime != wantBT {
-				report(c02Finding{"grpc-block-time", fmt.Sprintf("%s GetBlock(%d): block time %d, archived %d", via, b.Slot, resp.BlockTime, wantBT)})
-			}
-			if b.HasHeight && b.Slot != 0 && resp.BlockHeight != b.Height {
-				report(c02Finding{"grpc-block-height", fmt.Sprintf("%s GetBlock(%d): height %d, archived %d", via, b.Slot, resp.BlockHeight, b.Height)})
-			}
-			if !bytes.Equal(resp.Blockhash, b.LastEntryHash) {
-				report(c02Finding{"grpc-blockhash", fmt.Sprintf("%s GetBlock(%d): blockhash differs from the last entry hash", via, b.Slot)})
-			}
-			if pb := slotHas(br.e, b.Parent); pb != nil && b.Slot != 0 && pb.NumEntries > 0 && b.Parent != b.Slot && !bytes.Equal(resp.PreviousBlockhash, pb.LastEntryHash) {
-				report(c02Finding{"grpc-previous-blockhash", fmt.Sprintf("%s GetBlock(%d): previous blockhash differs from parent %d", via, b.Slot, b.Parent)})
-			}
-			if b.RewardsRaw != nil && !bytes.Equal(resp.Rewards, b.RewardsRaw) {
-				report(c02Finding{"grpc-rewards", fmt.Sprintf("%s GetBlock(%d): rewards payload (%d bytes) differs from the archive (%d bytes)", via, b.Slot, len(resp.Rewards), len(b.RewardsRaw))})
-			}
-			if len(resp.Transactions) != len(b.Txs) {
-				report(c02Finding{"grpc-tx-count", fmt.Sprintf("%s GetBlock(%d): %d transactions, archived %d", via, b.Slot, len(resp.Transactions), len(b.Txs))})
-				return
-			}
-			for k, ti := range b.Txs {
-				tx := &t.Txs[ti]
-				g := resp.Transactions[k]
-				if !bytes.Equal(g.Transaction, tx.TxBytes) || !bytes.Equal(g.Meta, tx.MetaBytes) {
-					report(c02Finding{"grpc-block-tx-bytes", fmt.Sprintf("%s GetBlock(%d)[%d]: transaction/meta bytes differ from the archive (position order?)", via, b.Slot, k)})
+				if resp.Slot != b.Slot || (b.Slot != 0 && resp.ParentSlot != b.Parent) {
+					report(c02Finding{"grpc-slot", fmt.Sprintf("%s GetBlock(%d): slot %d parent %d, archived parent %d", via, b.Slot, resp.Slot, resp.ParentSlot, b.Parent)})
 				}
-				if g.Index == nil || int(*g.Index) != tx.Position {
-					report(c02Finding{"grpc-block-tx-position", fmt.Sprintf("%s GetBlock(%d)[%d]: index %v, archived position %d", via, b.Slot, k, g.Index, tx.Position)})
+				if b.Slot != 0 && resp.BlockTime != wantBT {
+					report(c02Finding{"grpc-block-time", fmt.Sprintf("%s GetBlock(%d): block time %d, archived %d", via, b.Slot, resp.BlockTime, wantBT)})
+				}
+				if b.HasHeight && b.Slot != 0 && resp.BlockHeight != b.Height {
+					report(c02Finding{"grpc-block-height", fmt.Sprintf("%s GetBlock(%d): height %d, archived %d", via, b.Slot, resp.BlockHeight, b.Height)})
+				}
+				if !bytes.Equal(resp.Blockhash, b.LastEntryHash) {
+					report(c02Finding{"grpc-blockhash", fmt.Sprintf("%s GetBlock(%d): blockhash differs from the last entry hash", via, b.Slot)})
+				}
+				if pb := slotHas(br.e, b.Parent); pb != nil && b.Slot != 0 && pb.NumEntries > 0 && b.Parent != b.Slot && !bytes.Equal(resp.PreviousBlockhash, pb.LastEntryHash) {
+					report(c02Finding{"grpc-previous-blockhash", fmt.Sprintf("%s GetBlock(%d): previous blockhash differs from parent %d", via, b.Slot, b.Parent)})
+				}
+				if b.RewardsRaw != nil && !bytes.Equal(resp.Rewards, b.RewardsRaw) {
+					report(c02Finding{"grpc-rewards", fmt.Sprintf("%s GetBlock(%d): rewards payload (%d bytes) differs from the archive (%d bytes)", via, b.Slot, len(resp.Rewards), len(b.RewardsRaw))})
+				}
+				if len(resp.Transactions) != len(b.Txs) {
+					report(c02Finding{"grpc-tx-count", fmt.Sprintf("%s GetBlock(%d): %d transactions, archived %d", via, b.Slot, len(resp.Transactions), len(b.Txs))})
+					return
+				}
+				for k, ti := range b.Txs {
+					tx := &t.Txs[ti]
+					g := resp.Transactions[k]
+					if !bytes.Equal(g.Transaction, tx.TxBytes) || !bytes.Equal(g.Meta, tx.MetaBytes) {
+						report(c02Finding{"grpc-block-tx-bytes", fmt.Sprintf("%s GetBlock(%d)[%d]: transaction/meta bytes differ from the archive (position order?)", via, b.Slot, k)})
+					}
+					if g.Index == nil || int(*g.Index) != tx.Position {
+						report(c02Finding{"grpc-block-tx-position", fmt.Sprintf("%s GetBlock(%d)[%d]: index %v, archived position %d", via, b.Slot, k, g.Index, tx.Position)})
+					}
 				}
 			}
-		}
-		func() {
-			defer func() {
-				if r := recover(); r != nil {
-					report(c02Finding{"panic", fmt.Sprintf("gRPC GetBlock(%d) panicked: %v", b.Slot, r)})
+			func() {
+				defer func() {
+					if r := recover(); r != nil {
+						report(c02Finding{"panic", fmt.Sprintf("gRPC GetBlock(%d) panicked: %v", b.Slot, r)})
+					}
+				}()
+				resp, err := w.multi.GetBlock(ctx, &old_faithful_grpc.BlockRequest{Slot: b.Slot})
+				checkGrpcBlock(resp, err, "gRPC")
+				st := &vkGetStream{vkStreamBase: vkBase0(), In: []*old_faithful_grpc.GetRequest{
+					{Id: 7, Request: &old_faithful_grpc.GetRequest_Block{Block: &old_faithful_grpc.BlockRequest{Slot: b.Slot}}},
+					{Id: 8, Request: &old_faithful_grpc.GetRequest_BlockTime{BlockTime: &old_faithful_grpc.BlockTimeRequest{Slot: b.Slot}}},
+				}}
+				if err := w.multi.Get(st); err != nil || len(st.Got) != 2 {
+					report(c02Finding{"grpc-get-stream", fmt.Sprintf("Get stream for slot %d: err=%v responses=%d", b.Slot, err, len(st.Got))})
+				} else {
+					checkGrpcBlock(st.Got[0].GetBlock(), nil, "Get-stream")
+					if bt := st.Got[1].GetBlockTime(); bt == nil || bt.BlockTime != wantBT {
+						report(c02Finding{"grpc-get-stream-blocktime", fmt.Sprintf("Get stream block time for slot %d: %v, archived %d", b.Slot, st.Got[1], wantBT)})
+					}
+				}
+				bt, err := w.multi.GetBlockTime(ctx, &old_faithful_grpc.BlockTimeRequest{Slot: b.Slot})
+				count(false)
+				if err != nil || bt.BlockTime != wantBT {
+					report(c02Finding{"grpc-GetBlockTime", fmt.Sprintf("gRPC GetBlockTime(%d): %v err=%v, archived %d", b.Slot, bt, err, wantBT)})
 				}
 			}()
-			resp, err := w.multi.GetBlock(ctx, &old_faithful_grpc.BlockRequest{Slot: b.Slot})
-			checkGrpcBlock(resp, err, "gRPC")
-			st := &vkGetStream{vkStreamBase: vkBase0(), In: []*old_faithful_grpc.GetRequest{
-				{Id: 7, Request: &old_faithful_grpc.GetRequest_Block{Block: &old_faithful_grpc.BlockRequest{Slot: b.Slot}}},
-				{Id: 8, Request: &old_faithful_grpc.GetRequest_BlockTime{BlockTime: &old_faithful_grpc.BlockTimeRequest{Slot: b.Slot}}},
-			}}
-			if err := w.multi.Get(st); err != nil || len(st.Got) != 2 {
-				report(c02Finding{"grpc-get-stream", fmt.Sprintf("Get stream for slot %d: err=%v responses=%d", b.Slot, err, len(st.Got))})
-			} else {
-				checkGrpcBlock(st.Got[0].GetBlock(), nil, "Get-stream")
-				if bt := st.Got[1].GetBlockTime(); bt == nil || bt.BlockTime != wantBT {
-					report(c02Finding{"grpc-get-stream-blocktime", fmt.Sprintf("Get stream block time for slot %d: %v, archived %d", b.Slot, st.Got[1], wantBT)})
-				}
-			}
-			bt, err := w.multi.GetBlockTime(ctx, &old_faithful_grpc.BlockTimeRequest{Slot: b.Slot})
-			count(false)
-			if err != nil || bt.BlockTime != wantBT {
-				report(c02Finding{"grpc-GetBlockTime", fmt.Sprintf("gRPC GetBlockTime(%d): %v err=%v, archived %d", b.Slot, bt, err, wantBT)})
-			}
 		}()
+		if w.dead {
+			return
+		}
 		// ---------- transactions of this block ----------
 		for _, ti := range b.Txs {
 			if w.dead {
@@ -411,9 +422,11 @@ func TestVerif_C02(t *testing.T) {
 	vkRequestWatchdog = 120 * time.Second // a request that never returns is a finding, not a worker timeout
 	base := vkBase("c02")
 	defer os.RemoveAll(base)
-	R.Rule = "configuration = non-empty subset of 3 generated epochs (0 with genesis, 1, 2; skipped slots, multi-entry blocks, linked-frame metadata and rewards, vote/failed/no-metadata transactions, parents in the previous epoch) x epoch-search concurrency x request order (ascending on a cold cache, descending on the warm one, descending on a cold cache of a freshly loaded world), plus configurations that serve all epochs or only the middle one through the deprecated index formats (size-less cid-to-offset index, deprecated sig-exists index); under each configuration EVERY archived slot and signature is requested through JSON-RPC getBlock/getTransaction/getBlockTime in each encoding and gRPC GetBlock/GetTransaction/GetBlockTime (direct and through the Get stream) and compared with generator-side ground truth; non-trivial = request whose answer contains transaction payloads"
+	R.Rule = "configuration = non-empty subset of 3 generated epochs (0 with genesis, 1, 2; skipped slots, multi-entry blocks, linked-frame metadata and rewards, vote/failed/no-metadata transactions, parents in the previous epoch) x epoch-search concurrency x request order (ascending on a cold cache, descending on the warm one, descending on a cold cache of a freshly loaded world, and the transaction requests alone in ascending and in descending order on cold caches), plus epoch 0 with slot 1 skipped (a block whose parent is slot 0), plus configurations that serve all epochs or only the middle one through the deprecated index formats (size-less cid-to-offset index, deprecated sig-exists index); under each configuration EVERY archived slot and signature is requested through JSON-RPC getBlock/getTransaction/getBlockTime in each encoding and gRPC GetBlock/GetTransaction/GetBlockTime (direct and through the Get stream) and compared with generator-side ground truth; non-trivial = request whose answer contains transaction payloads"
 	R.Assume("generator constraints so that the oracle asks only what the statement fixes: every block has at least one entry, a non-zero block time, a position index on every transaction, and its parent is the previous archived block; slot 0's block time/height/parent are not compared (the server substitutes genesis values)")
 	shapes := c02Shapes()
+	altShape := shapes[3]
+	shapes = shapes[:3]
 	var eps []*vEpoch
 	for i, sh := range shapes {
 		e, err := vkBuildEpoch(filepath.Join(base, fmt.Sprintf("e%d", i)), sh, false)
@@ -424,6 +437,12 @@ func TestVerif_C02(t *testing.T) {
 		e.writeConfig(vkConfigOpts{NoGsfa: true})
 		eps = append(eps, e)
 	}
+	alt0, err := vkBuildEpoch(filepath.Join(base, "e0b"), altShape, false)
+	if err != nil {
+		R.Internal("cannot build epoch 0 (slot 1 skipped): %v", err)
+		return
+	}
+	alt0.writeConfig(vkConfigOpts{NoGsfa: true})
 	concs := []int{-1, 1, 2, runtime.NumCPU()}
 	encs := []string{"base58", "base64", "base64+zstd", "json"}
 	subsets := []int{1, 2, 3, 4, 5, 6, 7}
@@ -481,7 +500,7 @@ func TestVerif_C02(t *testing.T) {
 	}
 	type c02Cfg struct {
 		mask, conc int
-		legacy     int // 0 = current formats, 1 = every epoch legacy, 2 = only the middle epoch legacy, 3 = every epoch served over HTTP, 4 = only the middle epoch over HTTP, 5 = every epoch's CAR from split pieces over HTTP
+		legacy     int // 0 = current formats, 1 = every epoch legacy, 2 = only the middle epoch legacy, 3 = every epoch served over HTTP, 4 = only the middle epoch over HTTP, 5 = every epoch's CAR from split pieces over HTTP, 6 = epoch 0 with slot 1 skipped
 	}
 	var cfgs []c02Cfg
 	for _, mask := range subsets {
@@ -499,6 +518,7 @@ func TestVerif_C02(t *testing.T) {
 	cfgs = append(cfgs, c02Cfg{7, 1, 2})
 	cfgs = append(cfgs, c02Cfg{7, concs[len(concs)-1], 3}, c02Cfg{2, 1, 3}, c02Cfg{7, 1, 4})
 	cfgs = append(cfgs, c02Cfg{7, concs[len(concs)-1], 5}, c02Cfg{2, 1, 5})
+	cfgs = append(cfgs, c02Cfg{1, 1, 6})
 	R.Bounds["remote_http_configurations"] = 3
 	R.Bounds["from_pieces_configurations"] = 2
 	R.Bounds["legacy_format_configurations"] = len(legacyMasks) + 1
@@ -516,13 +536,13 @@ func TestVerif_C02(t *testing.T) {
 			}
 			cfgName := fmt.Sprintf("epochs=%03b conc=%d", mask, conc)
 			if cf.legacy != 0 {
-				cfgName += []string{"", " legacy-format=all", " legacy-format=middle-epoch", " remote-http=all", " remote-http=middle-epoch", " car-from-split-pieces-over-http"}[cf.legacy]
+				cfgName += []string{"", " legacy-format=all", " legacy-format=middle-epoch", " remote-http=all", " remote-http=middle-epoch", " car-from-split-pieces-over-http", " slot-1-skipped"}[cf.legacy]
 			}
 			var loaded []*vEpoch
 			// two worlds per configuration, each with a cache of its own: passes 0 (ascending, cold) and 1
 			// (descending, warm) share one; pass 2 walks a freshly loaded world in descending order, so that a
 			// block is requested BEFORE its parent, the previous epoch's last block included (cold)
-			for _, passes := range [][]int{{0, 1}, {2}} {
+			for _, passes := range [][]int{{0, 1}, {2}, {3}, {4}} {
 				cache := vkNewCache()
 				loaded = nil
 				goroutinesBefore := runtime.NumGoroutine()
@@ -534,6 +554,9 @@ func TestVerif_C02(t *testing.T) {
 					}
 					if cf.legacy == 5 {
 						e = flatEps[i]
+					}
+					if cf.legacy == 6 {
+						e = alt0
 					}
 					cfgPath := e.ConfigPath
 					if cf.legacy == 1 || (cf.legacy == 2 && i == 1) {
@@ -564,7 +587,11 @@ func TestVerif_C02(t *testing.T) {
 						break
 					}
 					pass := pass
-					w.checkAll(loaded, pass != 0, encs, func(f c02Finding) {
+					// passes 3 and 4: only the transaction requests, ascending / descending, each on a freshly loaded
+					// world with a cold cache: every object of a transaction is located through the indexes (no
+					// getBlock has put the block's objects into the cache), with the other epochs' lookups cached
+					w.txOnly = pass >= 3
+					w.checkAll(loaded, pass != 0 && pass != 3, encs, func(f c02Finding) {
 						R.Violation("C02|"+f.class, fmt.Sprintf("[%s pass=%d] %s", cfgName, pass, f.detail), map[string]interface{}{"mask": mask, "conc": conc, "pass": pass, "legacy": cf.legacy})
 					}, func(nt bool) { R.Case(nt, "") })
 				}
